@@ -221,17 +221,57 @@ class Fix:
 
 def direct(pname, u):
     """State oracle: propagate(date) of a brand-new object (cached per process: a fresh object is a pure function of the date).
-    Returns a cartesian array or None when propagate() is not defined there / raises."""
+    Returns (cartesian array, None) or (None, reason): a direct propagation that raises or returns a state dated otherwise
+    is itself a violation ('each yielded state equals what a direct propagation to that date returns' presupposes that it returns)."""
     cache = _G.setdefault("direct", {})
     k = (pname, u)
     if k not in cache:
         ref = Fix(pname)
         try:
             d = ref.obj.propagate(ref.at(u))
-            cache[k] = A(d if str(d.form) == "cartesian" else d.copy(form="cartesian"))
-        except LIBERR:
-            cache[k] = None
+            got = ref.us(d.date)
+            if got != u:
+                cache[k] = (None, f"wrong-date: propagate({u*1e-6} s) returned a state dated {got*1e-6} s")
+            else:
+                cache[k] = (A(d if str(d.form) == "cartesian" else d.copy(form="cartesian")), None)
+        except LIBERR as e:
+            cache[k] = (None, f"raises-{type(e).__name__}: {str(e)[:160]}")
     return cache[k]
+
+
+def raised_in_library(exc):
+    """True when the innermost frame of the exception lies in the tree under test (not in the harness / numpy / stdlib)."""
+    import os
+    from mc import engine
+
+    root = os.path.join(os.path.realpath(engine.repo_path()), "beyond") + os.sep
+    tb = exc.__traceback__
+    inner = None
+    while tb is not None:
+        inner = tb.tb_frame.f_code.co_filename
+        tb = tb.tb_next
+    return inner is not None and os.path.realpath(inner).startswith(root)
+
+
+def guarded(fn):
+    """Every library call made for an oracle / fixture / observation is a call of the real code: an exception raised INSIDE the
+    library there is a violation of the same clause (own signature), never a harness crash; anything else propagates."""
+
+    def wrapper(case, t):
+        try:
+            return fn(case, t)
+        except Exception as e:  # noqa: BLE001 - filtered by origin below
+            if not raised_in_library(e):
+                raise
+            import traceback
+
+            where = traceback.extract_tb(e.__traceback__)[-1]
+            t.fail(f"{case.get('prop', '?')}/library-exception-in-oracle-or-fixture-call/{type(e).__name__}",
+                   "fixtures, direct propagations and observations on fresh objects succeed", case, "no exception", repr(e)[:200],
+                   f"{type(e).__name__} raised in {where.filename.split('beyond/')[-1]}:{where.lineno} ({where.name}): {str(e)[:150]}")
+
+    wrapper.__name__ = fn.__name__
+    return wrapper
 
 
 def fresh_bound(pname):
@@ -375,6 +415,7 @@ def applicable(pname, sname, spname, stname, form, entry):
     return True
 
 
+@guarded
 def check_contract(case, t):
     pname, sname, spname, stname, form = case["prop"], case["start"], case["span"], case["step"], case["form"]
     entry = case.get("entry", "iter")
@@ -411,9 +452,10 @@ def check_contract(case, t):
         # the station only keeps the points above its horizon: filter the expected dates with the direct propagation
         keep = []
         for u in exp:
-            y = direct(pname, u)
+            y, why = direct(pname, u)
             if y is None:
-                t.exclude("visibility: no direct propagation available at an expected date")
+                t.fail(f"{site}/direct-propagate-{why.split(':')[0]}", "a direct propagation to a requested date returns the state of that date", case,
+                       u * 1e-6, why, f"{what}: direct propagate on a fresh object: {why}")
                 return
             el = elevation(pname, y, fx.at(u))
             if abs(el) < 1e-7:
@@ -462,11 +504,16 @@ def check_contract(case, t):
                f", got {len(got_us)}" + (f" [{got_us[0]*1e-6}..{got_us[-1]*1e-6}] s" if got_us else ""))
     # ---- states: equal to a direct propagation on a fresh object ----------------------------------
     worst = None
+    direct_failed = False
     tol = fx.tol + (1e-5 if entry == "visibility" else 0.0)
     for o, u in zip(got, got_us):
-        yd = direct(pname, u)
+        yd, why = direct(pname, u)
         if yd is None:
-            continue  # outside the domain of propagate (e.g. beyond an ephemeris): nothing to compare with
+            if not direct_failed:
+                direct_failed = True
+                t.fail(f"{site}/direct-propagate-{why.split(':')[0]}", "a direct propagation to a requested date returns the state of that date", case,
+                       u * 1e-6, why, f"{what}: direct propagate on a fresh object: {why}")
+            continue
         t.trans()
         if entry == "visibility":
             yo = A(o.copy(frame=fx.obj.frame, form="cartesian"))
@@ -490,6 +537,11 @@ def check_contract(case, t):
         t.fail(f"{site}/{cls}/state-differs-from-direct-propagate" + suffix,
                "each yielded state equals a direct propagation to that date", case,
                [float(x) for x in yd], [float(x) for x in yo], f"{what}: at {u*1e-6} s deviation {err:.3e} (tol {tol:.2e})")
+    # ---- a yielded state is never one of the stored / bound objects ----------------------------------
+    stored = fx.initial_orbits() + ([fx.obj.propagator.orbit] if (not fx.is_ephem and getattr(fx.obj.propagator, "orbit", None) is not None) else [])
+    if any(o is x for o in got for x in stored):
+        t.fail(f"{site}/yielded-state-aliases-source", "yielded states are new objects: changing them cannot change the source", case, "new objects",
+               "a yielded state IS a stored / bound orbit", what)
     # ---- the initial orbit and the orbit bound to the propagator are untouched ------------------------
     fresh = Fix(pname)
     if [dump_data(x) for x in fx.initial_orbits()] != [dump_data(x) for x in fresh.initial_orbits()]:
@@ -500,10 +552,83 @@ def check_contract(case, t):
 
 
 # ---------------------------------------------------------------------------
+# part P : dates exactly k propagator steps from the epoch, k = 1..6 before and after (propagate target and iteration start)
+
+P_PROPS = ["Sgp4", "Kepler", "J2", "NonePropagator", "KeplerNum", "KeplerNumA", "CW", "CWman", "Ephem"]
+
+
+@guarded
+def check_near_epoch(case, t):
+    from datetime import timedelta
+
+    pname, k = case["prop"], case["k"]
+    fx = Fix(pname)
+    site = ("Ephem" if fx.is_ephem else "KeplerNum" if fx.numerical else "CW" if pname == "CWman" else pname)
+    step = timedelta(microseconds=DELTA)
+    key = ("P", pname, k)
+    t.ev(key)
+    t.state(key)
+    # reference stream anchored 8 steps before the epoch (a start that far away is not a 'near' date), cached per process
+    cache = _G.setdefault("refstream", {})
+    if pname not in cache:
+        try:
+            ref = Fix(pname)
+            items = list(ref.obj.iter(start=ref.at(-8 * DELTA), stop=ref.at(16 * DELTA), step=step))
+            cache[pname] = {ref.us(o.date): A(o if str(o.form) == "cartesian" else o.copy(form="cartesian")) for o in items}
+        except LIBERR as e:
+            cache[pname] = f"{type(e).__name__}: {str(e)[:160]}"
+    ref = cache[pname]
+    if isinstance(ref, str):
+        t.fail(f"{site}/near-epoch-grid/reference-stream-raises", "iteration over [epoch - 8 steps, epoch + 16 steps] yields states", case, "states", ref)
+        return
+    if sorted(ref) != [j * DELTA for j in range(-8, 17)]:
+        t.fail(f"{site}/near-epoch-grid/reference-stream-dates", "iteration yields exactly start + k*step", case, "25 dates every 60 s", [u * 1e-6 for u in sorted(ref)][:30])
+        return
+    wv = 1.0 if pname.startswith("CW") else 1e3
+    clause = "a date a whole number of steps from the epoch is an ordinary date: same state whatever the request"
+    # ---- propagate(epoch + k steps) ---------------------------------------------------------------------------------------
+    u = k * DELTA
+    try:
+        p = fx.obj.propagate(fx.at(u))
+        t.trans()
+        got = fx.us(p.date)
+        if got != u:
+            t.fail(f"{site}/near-epoch-grid/propagate-wrong-date", clause, case, u * 1e-6, got * 1e-6, f"{pname}: propagate(epoch {k:+d} steps) returned a state dated {got*1e-6} s")
+        else:
+            y = A(p if str(p.form) == "cartesian" else p.copy(form="cartesian"))
+            err = max(float(np.linalg.norm(y[:3] - ref[u][:3])), float(np.linalg.norm(y[3:] - ref[u][3:])) * wv)
+            if not t.margin("P: propagate(epoch + k steps) vs stream anchored 8 steps before the epoch / tol", err, fx.tol):
+                t.fail(f"{site}/near-epoch-grid/propagate-state", clause, case, [float(x) for x in ref[u]], [float(x) for x in y],
+                       f"{pname}: propagate(epoch {k:+d} steps) deviates by {err:.3e} (tol {fx.tol:.2e})")
+    except LIBERR as e:
+        t.fail(f"{site}/near-epoch-grid/propagate-raises-{type(e).__name__}", clause, case, "state", repr(e)[:200], f"{pname}: propagate(epoch {k:+d} steps)")
+    # ---- iteration STARTING at epoch + k steps (9 steps long: no short-span re-sampling issue) ---------------------------------
+    fx = Fix(pname)
+    try:
+        items = list(fx.obj.iter(start=fx.at(u), stop=fx.at(u + 9 * DELTA), step=step))
+        t.trans(len(items))
+    except LIBERR as e:
+        t.fail(f"{site}/near-epoch-grid/iter-raises-{type(e).__name__}", clause, case, "states", repr(e)[:200], f"{pname}: iter(start=epoch {k:+d} steps)")
+        return
+    got = [fx.us(o.date) for o in items]
+    exp = [u + j * DELTA for j in range(10)]
+    if got != exp:
+        t.fail(f"{site}/near-epoch-grid/iter-dates", "iteration yields exactly start + k*step", case, [x * 1e-6 for x in exp], [x * 1e-6 for x in got],
+               f"{pname}: iter(start=epoch {k:+d} steps, 9 steps) yielded {len(got)} dates [{got[0]*1e-6 if got else None}..{got[-1]*1e-6 if got else None}] s")
+        return
+    worst = 0.0
+    for o, uu in zip(items, got):
+        y = A(o if str(o.form) == "cartesian" else o.copy(form="cartesian"))
+        worst = max(worst, float(np.linalg.norm(y[:3] - ref[uu][:3])), float(np.linalg.norm(y[3:] - ref[uu][3:])) * wv)
+    if not t.margin("P: iteration started at epoch + k steps vs stream anchored 8 steps before the epoch / tol", worst, fx.tol):
+        t.fail(f"{site}/near-epoch-grid/iter-state", clause, case, "reference stream", worst, f"{pname}: iter(start=epoch {k:+d} steps) deviates by {worst:.3e} (tol {fx.tol:.2e})")
+
+
+# ---------------------------------------------------------------------------
 # part B
 
-OPS_ORBIT = ["p1", "p2", "it1", "ab2", "itL", "itD", "eph", "q1"]
-OPS_EPHEM = ["p1", "p2", "it1", "ab2", "itL", "itD", "eph", "itN", "abN", "res"]
+OPS_ORBIT = ["p1", "p2", "it1", "ab2", "itL", "itD", "eph", "q1", "mut"]
+OPS_EPHEM = ["p1", "p2", "it1", "ab2", "itL", "itD", "eph", "itN", "abN", "res", "mut"]
 T1, T2, TSTAR = 7 * DELTA + 13_000_000, -3 * DELTA, 5 * DELTA + 1_500_000
 R1 = (0, 12 * DELTA, DELTA)
 R2 = (-2 * DELTA, 9 * DELTA, int(0.7 * DELTA))
@@ -526,12 +651,13 @@ def thresholds(pname):
     a listener left over from an earlier iteration (prev far away, opposite sign) would produce a spurious one."""
     key = ("thr", pname)
     if key not in _G:
-        fx = Fix(pname)
-        ya = A(fx.obj.propagate(fx.at(RSTAR[0] + int(0.32 * (RSTAR[1] - RSTAR[0])))).copy(form="cartesian"))
-        yb = A(fx.obj.propagate(fx.at(RSTAR[0] + int(0.41 * (RSTAR[1] - RSTAR[0])))).copy(form="cartesian"))
-        yc = A(fx.obj.propagate(fx.at(RSTAR[0] + int(0.66 * (RSTAR[1] - RSTAR[0])))).copy(form="cartesian"))
-        yd = A(fx.obj.propagate(fx.at(RSTAR[0] + int(0.77 * (RSTAR[1] - RSTAR[0])))).copy(form="cartesian"))
-        _G[key] = (0.5 * (ya[0] + yb[0]), 0.5 * (yc[1] + yd[1]))
+        span = RSTAR[1] - RSTAR[0]
+        ys = [direct(pname, RSTAR[0] + int(f * span))[0] for f in (0.32, 0.41, 0.66, 0.77)]
+        if any(y is None for y in ys):
+            # the direct propagation itself is broken (reported by parts A / P): fall back to the initial coordinates
+            y0 = A(Fix(pname).initial_orbits()[0].copy(form="cartesian"))
+            ys = [y0, y0, y0, y0]
+        _G[key] = (0.5 * (ys[0][0] + ys[1][0]), 0.5 * (ys[2][1] + ys[3][1]))
     return _G[key]
 
 
@@ -601,6 +727,35 @@ class World:
 
             e = fx.obj.ephem(start=fx.at(R1[0]), stop=fx.at(R1[1]), step=timedelta(microseconds=R1[2]))
             n = len(e)
+        elif op == "mut":
+            # what an iteration YIELDS belongs to the caller: convert / overwrite it in place, also through a derived ephemeris
+            from datetime import timedelta
+
+            yielded = list(self.it(R1))
+            derived = [fx.obj.ephem(start=fx.at(R1[0]), stop=fx.at(R1[1]), step=timedelta(microseconds=R1[2]))]
+            if fx.is_ephem:  # native step: the recorded states themselves are served
+                yielded += list(fx.obj.iter())
+                yielded += list(fx.obj.iter(start=fx.at(R1[0]), stop=fx.at(R1[1])))
+                derived.append(fx.obj.ephem())
+                derived.append(fx.obj.ephem(start=fx.at(R1[0]), stop=fx.at(R1[1])))
+            stored = fx.initial_orbits() + ([fx.obj.propagator.orbit] if (not fx.is_ephem and getattr(fx.obj.propagator, "orbit", None) is not None) else [])
+            for e in derived:
+                yielded += list(e._orbits)
+            if any(o is x for o in yielded for x in stored):
+                raise HistoryViolation("yielded-state-aliases-source", "new objects", "a yielded state IS a stored / bound orbit")
+            hill = fx.pname.startswith("CW")
+            for e in derived:
+                e.form = "spherical"
+                if not hill:
+                    e.frame = "ITRF"
+            for o in yielded:
+                if str(o.form) != "spherical":
+                    o.form = "spherical"
+                if not hill and o.frame.name != "ITRF":
+                    o.frame = "ITRF"
+                o[0] = o[0] + 1234.5
+                o[4] = -o[4]
+            n = len(yielded)
         elif op == "q1":  # another orbit bound to the same propagator object
             self.other.propagate(fx.at(T1)); n = 1
         elif op == "itN":  # ephemeris: its own nodes
@@ -681,15 +836,23 @@ def compare_obs(a, b):
     return worst, diffs
 
 
+@guarded
 def check_history(case, t):
     pname, hist = case["prop"], case["history"]
     site = "Ephem" if pname == "Ephem" else pname
     clause = "results do not depend on earlier calls / re-used objects; the initial orbit is never modified"
     if "fresh_obs" not in _G or _G.get("fresh_for") != pname:
         w0 = World(pname)
-        _G["fresh_obs"], _ = w0.observe()
+        try:
+            _G["fresh_obs"], _ = w0.observe()
+        except LIBERR as e:
+            _G["fresh_obs"] = ("raises", f"{type(e).__name__}: {str(e)[:160]}")
         _G["fresh_for"] = pname
     fresh = _G["fresh_obs"]
+    if isinstance(fresh, tuple):
+        t.fail(f"{site}/history/fresh-observation-{fresh[0]}", "propagate / iterate on brand-new objects returns states", case, "an observation", fresh[1],
+               f"{pname}: the observation on fresh objects fails: {fresh[1]}")
+        return
     w = World(pname)
     t.ev(("B", pname, tuple(hist)) if hist else None)
     try:
@@ -697,8 +860,9 @@ def check_history(case, t):
             t.trans(w.apply(op))
     except HistoryViolation as e:
         t.outcome(("B", pname, e.what))
-        t.fail(f"{site}/history-dependence/{e.what}", clause, case, e.expected, e.observed,
-               f"{pname} history {hist}: a suspended iterator resumed after other calls yields {e.observed} instead of {e.expected} s")
+        msg = (f"a suspended iterator resumed after other calls yields {e.observed} instead of {e.expected} s" if e.what == "resumed-iterator"
+               else f"{e.observed} (expected: {e.expected})")
+        t.fail(f"{site}/history-dependence/{e.what}", clause, case, e.expected, e.observed, f"{pname} history {hist}: {msg}")
         return
     except LIBERR as e:
         t.outcome(("B", pname, "op-raises"))
@@ -751,6 +915,8 @@ def units(tier, seed):
                          for sp, _ in SPANS for st, _ in STEPS for f in forms if applicable(pname, s, sp, st, f, entry)]
                 if cases:
                     u.append((cfg, dict(part="A", cases=cases)))
+    for pname in P_PROPS:
+        u.append((cfg, dict(part="P", cases=[dict(part="P", prop=pname, k=k) for k in range(-7, 8) if k])))
     depth = 3 if tier == "quick" else 4
     for pname in PROPS:
         for first in [None] + ops_of(pname):
@@ -771,6 +937,9 @@ def run_unit(p, t):
     if p["part"] == "A":
         for c in p["cases"]:
             check_contract(c, t)
+    elif p["part"] == "P":
+        for c in p["cases"]:
+            check_near_epoch(c, t)
     else:
         pname, prefix, depth = p["prop"], p["prefix"], p["depth"]
 
@@ -786,5 +955,7 @@ def run_unit(p, t):
 def replay(case, t):
     if case["part"] == "A":
         check_contract(case, t)
+    elif case["part"] == "P":
+        check_near_epoch(case, t)
     else:
         check_history(case, t)
